@@ -2,6 +2,7 @@ mod apgen;
 mod c01;
 mod c03;
 mod c05;
+mod c16;
 mod c17;
 mod causes;
 mod inst;
@@ -38,12 +39,25 @@ fn main() {
         let v: serde_json::Value = serde_json::from_str(&txt).expect("replay file is JSON");
         let code = match v["property"].as_str().unwrap_or("") {
             "C17" => c17::replay(&v),
+            "C16" => c16::replay(&v),
             p => {
                 eprintln!("no replay for property {p:?}");
                 2
             }
         };
         std::process::exit(code);
+    }
+    if args[0] == "show" {
+        // mc show <file.prql> : RQ JSON and SQL for the executable targets (debug aid)
+        let txt = std::fs::read_to_string(&args[1]).expect("read");
+        let (rq, outs) = relcheck::compile_staged(&txt, &relcheck::EXEC_DIALECTS);
+        if let Some(rq) = rq {
+            println!("{}", prqlc::json::from_rq(&rq).unwrap());
+        }
+        for (d, o) in outs {
+            println!("-- {d}: {o:?}");
+        }
+        return;
     }
     let id = args[0].to_uppercase();
     let mut tier = match std::env::var("VERIF_TIER").as_deref() {
@@ -71,6 +85,7 @@ fn main() {
         "C01" => c01::run(tier),
         "C03" => c03::run(tier),
         "C05" => c05::run(tier),
+        "C16" => c16::run(tier),
         "C17" => c17::run(tier),
         _ => {
             eprintln!("unknown property {id}");
